@@ -38,6 +38,8 @@ type Job struct {
 	ShrinkBudget int     `json:"shrink_budget"`
 	TapeLimit    int     `json:"tape_limit"`
 	LogDump      bool    `json:"log_dump"`
+	// Known lists "class|signature" of recorded findings: they are reported but not shrunk.
+	Known []string `json:"known,omitempty"`
 }
 
 // Found is one violation with everything needed to replay it.
@@ -352,7 +354,13 @@ func WorkerMain(t *testing.T, engines map[string]Engine) {
 		seenSig[v.Class+"|"+v.Signature] = true
 		f := Found{Violation: v, RunIndex: idx, RunSeed: runSeed, Tape: trimZeros(o.c.T.Rec), OrigLen: len(o.c.T.Rec),
 			LogHash: o.c.LogHash(), LogTail: tail(o.c.LogLines, 60), Knobs: o.c.Knobs, Counters: o.c.Counters}
-		if !o.tainted && job.ShrinkBudget > 0 {
+		isKnown := false
+		for _, k := range job.Known {
+			if k == v.Class+"|"+v.Signature {
+				isKnown = true
+			}
+		}
+		if !o.tainted && job.ShrinkBudget > 0 && !isKnown {
 			tainted := false
 			var best *Ctx
 			min, used := Shrink(f.Tape, func(cand []uint64) (bool, []uint64) {
